@@ -72,3 +72,36 @@ prop('C13', 'operations are total',
      'static fact: NODE-SOME (typestate of the thread\'s node handle on every path, including the generation-wrap branch), '
      'WITH-TAKE, INDEX-MOD, ENVELOPE-PROVENANCE, COOLDOWN-OWNED, TXN-CLOSED, TAG-TABLE, INUSE-FSM; hangs are excluded by the loop classes of C09.',
      'Panics inside std leaves other than the listed entry points; that all other guarantees continue to hold after the wrap beyond re-running every rule on that path.')
+
+from . import protect as R
+
+_ORD_C01 = {'cell-rmw', 'cell-confirm-load', 'debt-fast-publish', 'control-intent', 'head-traverse-load', 'head-publish'}
+
+
+def _ord_c01(fx, col):
+    O.rule_ord_with_floors(fx, col, only_roles=_ORD_C01)
+
+
+prop('C01', 'no use-after-free',
+     [R.rule_publish_confirm, R.rule_intent_first, R.rule_pay_before_release, R.rule_cover_all, P.rule_never_freed,
+      R.rule_claim_empty, _ord_c01],
+     'Decides the structural obligations of the hazard-pointer argument on every path of every configuration: the fast '
+     'debt is published before the confirming re-read and the protection is built only on the equal outcome '
+     '(PUBLISH-CONFIRM); the read intent is published before the cell is read and the confirmation outcome decides '
+     'which pointer is protected (INTENT-FIRST); a pointer taken out of the cell is released only after '
+     'wait_for_readers on that pointer and cell (PAY-BEFORE-RELEASE); the pay walk covers every node and all N+1 slots, '
+     'helping each node before walking its slots, inside the writer reservation (COVER-ALL, RAII-SPAN); nodes and '
+     'envelopes are never freed (NEVER-FREED); slots are claimed only when empty (CLAIM-EMPTY); the SeqCst rows of ORD.',
+     'That these obligations suffice under every interleaving and C11 execution (stale relaxed reads, address reuse) is NOT decided.')
+
+from . import ledger as L
+
+prop('C02', 'exact ownership accounting',
+     [L.rule_ledger, L.rule_bypass, R.rule_pay_used, O.rule_pay_cas, R.rule_slot_closed],
+     'Decides: on every normal path of every function that touches the raw-pointer/owned-value bridge the number of '
+     'reference counts taken equals the number given back (LEDGER; loops by equal balance at the back edge; the one '
+     'declared non-zero exit is the hand-over), no count is taken on a pointer whose protection was already returned '
+     '(INC-PROTECTED), ownership-bypassing primitives occur only in the admitted idioms (BYPASS), every pay() outcome '
+     'decides a branch (PAY-USED), debts are cleared only by the pointer-keyed CAS (PAY-CAS), and no borrow slot stays '
+     'occupied after the function that filled it returns without a guard owning it (SLOT-CLOSED).',
+     'Which of two racing pay() calls wins (delegated to the single compare_exchange); reclamation timing relative to std Arc semantics.')
